@@ -4,7 +4,7 @@ CONSTANTS
     Ws = {1, 2, 3}
     Modes = {"seq", "par"}
     Variants = {"ia"}
-    ColSets = {{"k", "x"}}
+    ColSets = {{"k", "x"}, {"x", "q"}}
     Kinds = {"time_course"}
     FailModes = {"intfail"}
     MaxDur = 1
